@@ -140,14 +140,6 @@ func (r *readCommand) read(ctx context.Context, ltx lcontext.LContext,
 		limiter = r.server.tailLimiter
 	}
 
-	defer func() {
-		select {
-		case <-limiter:
-			verifhook.At("limiter.released", r.server, path)
-		default:
-		}
-	}()
-
 	verifhook.At("limiter.enter", r.server, path)
 	select {
 	case limiter <- struct{}{}:
@@ -163,6 +155,15 @@ func (r *readCommand) read(ctx context.Context, ltx lcontext.LContext,
 			return
 		}
 	}
+	// Release the slot only now that we own one. A read cancelled while it was
+	// still waiting must not take a slot which belongs to another read.
+	defer func() {
+		select {
+		case <-limiter:
+			verifhook.At("limiter.released", r.server, path)
+		default:
+		}
+	}()
 	verifhook.At("limiter.acquired", r.server, path)
 
 	lines := r.server.lines
